@@ -12,6 +12,7 @@ import sys
 ROOT = os.path.dirname(os.path.dirname(os.path.abspath(__file__)))
 sys.path.insert(0, ROOT)
 sys.path.append(os.path.join(ROOT, '.deps'))
+from vmon.run import technique_of  # noqa: E402
 
 HOOK_COMMITS_FILE = os.path.join(ROOT, 'tools', 'hook_commits.txt')
 
@@ -41,7 +42,7 @@ def main():
                 },
                 'level_note': '; '.join(getattr(mod, 'ASSUMPTIONS', [])) or
                 'trusted: CPython, RDKit, numpy/scipy, PyYAML, pmutt',
-                'technique': mod.TECHNIQUE,
+                'technique': technique_of(mod),
             })
         else:
             na.append({'property_id': pid,
